@@ -68,18 +68,7 @@ func raceOnce(args []string) error {
 	seedRng := vh.Rand(1701)
 	gets, keysTotal := 0, 0
 	for round := 0; round < rounds; round++ {
-		var g, k int
-		var err error
-		switch round % 4 {
-		case 0:
-			g, k, err = raceOnceRound(instPtr, round, seedRng, res)
-		case 1:
-			g, k, err = raceOnceRound(instErr, round, seedRng, res)
-		case 2:
-			g, k, err = raceOnceRound(instAny, round, seedRng, res)
-		default:
-			g, k, err = raceOnceRound(instIntKey, round, seedRng, res)
-		}
+		g, k, err := instByName[instNames[round%len(instNames)]].raceRound(round, seedRng, res)
 		if err != nil {
 			return err
 		}
@@ -90,6 +79,8 @@ func raceOnce(args []string) error {
 }
 
 func raceOnceRound[K comparable, V any](in inst[K, V], round int, seedRng *rand.Rand, res *vh.Result) (gets, nkeys int, err error) {
+	resetOpaque()
+	fnCalls0 := userFnInvoked.Load()
 	nk := 1 + seedRng.IntN(4)
 	keys := make([]string, nk)
 	zero := map[string]bool{}
@@ -159,6 +150,11 @@ func raceOnceRound[K comparable, V any](in inst[K, V], round int, seedRng *rand.
 		return 0, 0, err
 	}
 	// validation, single-threaded
+	if n := userFnInvoked.Load() - fnCalls0; n != 0 {
+		res.Mismatch("OnceConstructor race stress: constructed value invoked ("+in.name+")",
+			fmt.Sprintf("the library invoked a constructed VALUE %d times: the value the constructor returned is a function and must only be stored and returned (%s)", n, in.name),
+			map[string]any{"round": round, "instantiation": in.name})
+	}
 	total := map[string]int{}
 	for i := range cons {
 		for k, n := range cons[i] {
@@ -178,13 +174,18 @@ func raceOnceRound[K comparable, V any](in inst[K, V], round int, seedRng *rand.
 				}
 				res.Mismatch("OnceConstructor race stress: constructor invocations per key ("+in.name+")", what, det)
 			}
-			if (in.id(x) == 0) != zero[k] || in.id(x) < 0 {
+			if in.id(x) < 0 {
+				res.Mismatch("OnceConstructor race stress: foreign result ("+in.name+")",
+					"Get returned a value the constructor never returned ("+in.name+")", det)
+				continue
+			}
+			if (in.id(x) == 0) != zero[k] {
 				res.Mismatch("OnceConstructor race stress: result", "Get returned the zero value for a key constructed non-zero, or vice versa", det)
 				continue
 			}
 			if f, ok := first[k]; !ok {
 				first[k] = x
-			} else if any(f) != any(x) {
+			} else if !in.identical(f, x) {
 				res.Mismatch("OnceConstructor race stress: result identity", "two Gets of the same key returned different objects", det)
 			}
 		}
@@ -315,18 +316,7 @@ func stressOnce(args []string) error {
 	var clock atomic.Int64
 	gets := 0
 	for round := 0; round < rounds; round++ {
-		var g int
-		var err error
-		switch round % 4 {
-		case 0:
-			g, err = stressOnceRound(instPtr, round, seedRng, &clock, tr, res)
-		case 1:
-			g, err = stressOnceRound(instErr, round, seedRng, &clock, tr, res)
-		case 2:
-			g, err = stressOnceRound(instAny, round, seedRng, &clock, tr, res)
-		default:
-			g, err = stressOnceRound(instIntKey, round, seedRng, &clock, tr, res)
-		}
+		g, err := instByName[instNames[round%len(instNames)]].stressRound(round, seedRng, &clock, tr, res)
 		if err != nil {
 			return err
 		}
@@ -343,6 +333,8 @@ func stressOnce(args []string) error {
 // subset of the keys.
 func stressOnceRound[K comparable, V any](in inst[K, V], round int, seedRng *rand.Rand, clock *atomic.Int64,
 	tr *vh.Trace, res *vh.Result) (gets int, err error) {
+	resetOpaque()
+	fnCalls0 := userFnInvoked.Load()
 	nk := 1 + seedRng.IntN(4)
 	zero := map[string]bool{}
 	for i := 0; i < nk; i++ {
@@ -409,6 +401,11 @@ func stressOnceRound[K comparable, V any](in inst[K, V], round int, seedRng *ran
 	tr.Emit(map[string]any{"t": "new", "round": round, "inst": in.name})
 	for _, e := range all {
 		tr.Emit(e.ev)
+	}
+	if n := userFnInvoked.Load() - fnCalls0; n != 0 {
+		res.Mismatch("OnceConstructor stress: constructed value invoked ("+in.name+")",
+			fmt.Sprintf("the library invoked a constructed VALUE %d times: the value the constructor returned is a function and must only be stored and returned (%s)", n, in.name),
+			map[string]any{"round": round, "instantiation": in.name})
 	}
 	// the same observable, directly
 	ncons.Range(func(k, c any) bool {
